@@ -1,6 +1,6 @@
 (* C41 -- pinned property theorems (nothing else lives here) *)
 From Coq Require Import ZArith NArith List Bool.
-From V Require Import Base.Term C41.Model C41.Strings C41.Numbers C41.Proofs C41.Rejects.
+From V Require Import Base.Term C41.Model C41.Strings C41.Numbers C41.Proofs C41.Rejects C41.Escapes C41.Eqb.
 Import ListNotations.
 Open Scope N_scope.
 
@@ -31,6 +31,22 @@ Proof.
   destruct (digits_head n) as [d [t [E [_ H]]]]. rewrite E. exact H.
 Qed.
 Print Assumptions digits_correct.
+
+(* every escape decodes to the character it denotes: a string of Unicode scalar values spelled entirely with \uXXXX
+   escapes (surrogate pairs above 0xFFFF) is parsed to that string *)
+Theorem escaped_string_round_trip : forall cs, forallb scalar cs = true ->
+  parse (34 :: print_chars_esc cs ++ [34]) = Some (JStr cs).
+Proof. exact escaped_document_proof. Qed.
+Print Assumptions escaped_string_round_trip.
+
+(* the comparison functions evaluated by the correspondence decide what they are meant to decide *)
+Theorem parses_to_correct : forall text v, parses_to text v = true <-> parse text = Some v.
+Proof. exact parses_to_spec. Qed.
+Print Assumptions parses_to_correct.
+
+Theorem check_verdict_correct : forall text b, check_verdict text b = true <-> (b = true <-> parse text <> None).
+Proof. exact check_verdict_spec. Qed.
+Print Assumptions check_verdict_correct.
 
 (* malformed families proved unparseable *)
 Theorem parse_rejects_after_value : forall v g rest, wf v -> ok_rest (g :: rest) = true ->
@@ -87,6 +103,10 @@ Example ex_ws_escapes :      (*  [ "😀é" , 12E2 ]  *)
   parse [32; 91; 32; 34; 92; 117; 100; 56; 51; 100; 92; 117; 100; 101; 48; 48; 92; 117; 48; 48; 69; 57; 34; 10; 44; 9;
          49; 50; 69; 50; 32; 93; 13] = Some (JArr [JStr [128512; 233]; JInt 1200]).
 Proof. vm_compute. reflexivity. Qed.
+Example ex_scalar : forallb scalar [0; 34; 55295; 57344; 65535; 65536; 128512; 1114111] = true.
+Proof. reflexivity. Qed.
+Example ex_escaped : print_chars_esc [128512] = [92; 117; 100; 56; 51; 100; 92; 117; 100; 101; 48; 48].
+Proof. reflexivity. Qed.
 Example ex_plain : forallb plain [97; 233; 128512] = true.
 Proof. reflexivity. Qed.
 Example ex_lone_low : hex4 100 99 48 48 = Some 56320 /\ is_low 56320 = true.
